@@ -78,9 +78,11 @@ class Zone(dns.zone.Zone):  # lgtm[py/missing-equals]
         self._write_event: threading.Event | None = None
         self._write_waiters: collections.deque[threading.Event] = collections.deque()
         self._readers: set[Transaction] = set()
-        self._commit_version_unlocked(
-            None, WritableVersion(self, replacement=True), origin
-        )
+        factory = self.writable_version_factory or WritableVersion
+        version = factory(self, True)
+        if self.immutable_version_factory is not None:
+            version = self.immutable_version_factory(version)
+        self._commit_version_unlocked(None, version, origin)
 
     def reader(
         self, id: int | None = None, serial: int | None = None
